@@ -12,7 +12,10 @@ CONSTANTS
   MaxQueries = 0
 SPECIFICATION Spec
 CHECK_DEADLOCK FALSE
+PROPERTIES
+  RefinesMirrorInd
 INVARIANTS
+  AbsInv
   HistoryIndependent
   UndeclIndependent
   RepairedHistoryIndependent
